@@ -144,7 +144,10 @@ __CPROVER_requires (w != vp_reg.mu_word ||
 		    ((test & MU_SPINLOCK) != 0 && (set & MU_SPINLOCK) != 0 && !vp_g.spin && !vp_g.dead &&
 		     (set & ~(MU_SPINLOCK | MU_WAITING | MU_CONDITION)) == 0 && (clear & ~MU_ALL_FALSE) == 0 &&
 		     (test & ~MU_SPINLOCK) == 0 && !(vp_g.hold == VP_NONE && vp_g.waited) &&
-		     (!vp_g.observer || (set == MU_SPINLOCK && clear == 0))))
+		     (!vp_g.observer || (set == MU_SPINLOCK && clear == 0)) &&
+		     /* C02/C06: a call that announces a waiter voids the 'all conditions false' hint; the other callers are the scanning
+		        thread of nsync_mu_unlock_slow_ (it has set MU_DESIG_WAKER) and observers */
+		     ((set & MU_WAITING) != 0 ? (clear & MU_ALL_FALSE) != 0 : (vp_g.observer || vp_g.set_desig))))
 __CPROVER_requires (w != vp_reg.cv_word ||
 		    ((test & CV_SPINLOCK) != 0 && (set & CV_SPINLOCK) != 0 && (set & ~(CV_SPINLOCK | CV_NON_EMPTY)) == 0 && clear == 0 && !vp_cvg.spin))
 __CPROVER_ensures ((__CPROVER_return_value & test) == 0)
